@@ -462,6 +462,10 @@ def val_eq(a, b):
         return False
     if a is b:
         return True
+    if is_z3(a) and is_z3(b):
+        if a.sort() == b.sort():
+            return simp(a == b)
+        return False
     try:
         r = (a == b)
         if isinstance(r, bool):
